@@ -37,11 +37,16 @@ let parse_case line =
   { t = geti "T" 2 l; r = geti "R" 1 l; n; dout; din; grd = get "guard" "1" l = "1"; faults; test = get "test" "0" l = "1"; noinfo = geti "noinfo" (-1) l;
     mask = (match get "mask" "" l with "" -> [] | m -> String.split_on_char ',' m) }
 
-(* mask: per round (cycling) one character per thread, '1' = the thread allocates in its calls *)
-let allocates (c : case) t r =
+(* mask: per round (cycling) one character per thread - what the thread does in each call of
+   its timed section: '1' allocate (and leak), 'b' allocate and free, 'f' free a block that was
+   allocated before the run, 's' shrink a vector grown before the run, '0' nothing.
+   Sizes as in harness/hx-round/src/main.rs. *)
+let behaviour (c : case) t r =
   match c.mask with
-  | [] -> true
-  | ms -> let m = List.nth ms (r mod List.length ms) in t < String.length m && m.[t] = '1' 
+  | [] -> '1'
+  | ms -> let m = List.nth ms (r mod List.length ms) in if t < String.length m then m.[t] else '0'
+let fsize t = 32 * (t + 1) + 5
+let ssize_ t = 16 * (t + 1) + 3
 
 let config_of ?(fault_all = None) (c : case) : config =
   { nthreads = nat_of_int c.t; nrounds = nat_of_int c.r; ssize = (fun _ -> nat_of_int c.n);
@@ -52,8 +57,14 @@ let config_of ?(fault_all = None) (c : case) : config =
     allocs = (fun i r p ->
       let p = int_of_nat p in
       if p >= c.n + 4 && p < 2 * c.n + 4
-      then (if allocates c (int_of_nat i) (int_of_nat r)
-            then [Alloc (n_of_small (asize (int_of_nat i) (int_of_nat r) (p - c.n - 4)))] else [])
+      then (let t = int_of_nat i and r = int_of_nat r in
+            let a = n_of_small (asize t r (p - c.n - 4)) in
+            match behaviour c t r with
+            | '1' -> [Alloc a]
+            | 'b' -> [Alloc a; Dealloc a]
+            | 'f' -> [Dealloc (n_of_small (fsize t))]
+            | 's' -> [Shrink (n_of_small (ssize_ t))]
+            | _ -> [])
       else if p < c.n then [Alloc (n_of_small 7777); Dealloc (n_of_small 7777)]   (* generator noise *)
       else [Alloc (n_of_small 3333); Dealloc (n_of_small 3333)]) }                (* drop noise *)
 
@@ -133,8 +144,10 @@ let model_allocs (c : case) cfg =
   String.concat " " (List.map (fun (k, s) ->
     let k = int_of_nat k in
     let ((ac, ab), (dc, db)) = summarise s in
-    Printf.sprintf "%d.%d:%s,%s,%s,%s,0,0,0,0" (k / c.t) (k mod c.t)
-      (string_of_n ac) (string_of_n ab) (string_of_n dc) (string_of_n db)) (records cfg))
+    let ((gc, gb), (sc, sb)) = summarise_re s in
+    Printf.sprintf "%d.%d:%s,%s,%s,%s,%s,%s,%s,%s" (k / c.t) (k mod c.t)
+      (string_of_n ac) (string_of_n ab) (string_of_n dc) (string_of_n db)
+      (string_of_n gc) (string_of_n gb) (string_of_n sc) (string_of_n sb)) (records cfg))
 
 let outcome_s = function
   | None -> "ok"
